@@ -48,7 +48,7 @@ TIERS = {
 }
 REQUIRED_PROBES = {"quick": ["error_recorded_in_vevent", "non_lenient_container_raised", "delivery_with_warm_cache",
                              "hostile_id_reached_tz_lookup", "tzdb_view:package-only", "tzdb_view:tzpath-only",
-                             "isolation_checked", "multiple_components_returned", "delivered_as_str", "long_run_delivered",
+                             "isolation_checked", "multiple_components_returned", "delivered_as_str", "long_run_delivered", "dictionary_run",
                              "parse_failed_after_caching_zone", "deep_nesting"]}
 REQUIRED_PROBES["thorough"] = REQUIRED_PROBES["quick"]
 
@@ -198,7 +198,71 @@ def _pick_doc(rng, pool):
     return "syn", gen_synthetic(rng).encode("utf-8").decode("latin-1")
 
 
+DICT_DOC = "\r\n".join([
+    "BEGIN:VCALENDAR", "VERSION:2.0", "PRODID:-//icalsim//C04 dictionary//EN",
+    "BEGIN:VTIMEZONE", "TZID:Sim/Dict",
+    "BEGIN:DAYLIGHT", "DTSTART:19810329T020000", "TZOFFSETFROM:+0100", "TZOFFSETTO:+0200", "TZNAME:SDT",
+    "RRULE:FREQ=YEARLY;BYMONTH=3;BYDAY=-1SU", "END:DAYLIGHT",
+    "BEGIN:STANDARD", "DTSTART:19961027T030000", "TZOFFSETFROM:+0200", "TZOFFSETTO:+0100", "TZNAME:SST",
+    "RRULE:FREQ=YEARLY;BYMONTH=10;BYDAY=-1SU", "END:STANDARD", "END:VTIMEZONE",
+    "BEGIN:VEVENT", "UID:dict@example.com", "DTSTAMP:20200101T000000Z", "DTSTART;TZID=Sim/Dict:20200310T100000",
+    "DTEND;TZID=Sim/Dict:20200310T110000", "RRULE:FREQ=WEEKLY;COUNT=3",
+    "RDATE;TZID=Sim/Dict:20200311T100000,20200312T100000", "SEQUENCE:1", "GEO:1.0;2.0", "END:VEVENT",
+    "BEGIN:VTODO", "UID:dict-todo@example.com", "DTSTART;TZID=Sim/Dict:20200310T100000", "DURATION:PT1H",
+    "BEGIN:VALARM", "TRIGGER:-PT15M", "ACTION:DISPLAY", "END:VALARM", "END:VTODO",
+    "BEGIN:VFREEBUSY", "UID:dict-fb@example.com", "FREEBUSY:20200310T100000Z/PT1H", "END:VFREEBUSY",
+    "END:VCALENDAR", ""])
+
+# (line prefix in DICT_DOC, hostile category, both providers?)
+DICT_TARGETS = [
+    ("RRULE:FREQ=YEARLY;BYMONTH=3", "rrule", True), ("RRULE:FREQ=YEARLY;BYMONTH=10", "rrule", True),
+    ("RRULE:FREQ=WEEKLY", "rrule", False),
+    ("DTSTART:19810329", "date", True), ("DTSTART;TZID=Sim/Dict:20200310T100000", "date", False),
+    ("RDATE;TZID", "date", False), ("FREEBUSY:", "date", False),
+    ("TZOFFSETFROM:+0100", "offset", True), ("TZOFFSETTO:+0100", "offset", True),
+    ("TZID:Sim/Dict", "tzid-prop", True), ("DTSTART;TZID=Sim/Dict:20200310T100000", "tzid-param", True),
+    ("DURATION:PT1H", "duration", False), ("TRIGGER:", "duration", False),
+    ("SEQUENCE:", "number", False), ("GEO:", "number", False),
+]
+
+
+def dict_combos():
+    """Every (target line, hostile value, provider) of the dictionary, in a fixed order."""
+    pools = {"rrule": F.HOSTILE_RULES, "date": F.HOSTILE_DATES, "offset": F.HOSTILE_OFFSETS,
+             "tzid-prop": F.HOSTILE_TZIDS, "tzid-param": F.HOSTILE_TZIDS, "duration": F.HOSTILE_DURATIONS,
+             "number": F.HOSTILE_NUMBERS}
+    lines = F._lines(DICT_DOC.encode("utf-8"))
+    out = []
+    for prefix, what, both in DICT_TARGETS:
+        i = next(k for k, ln in enumerate(lines) if ln.decode("utf-8").startswith(prefix))
+        for n, value in enumerate(pools[what]):
+            for provider in (["pytz", "zoneinfo"] if both else [["pytz", "zoneinfo"][n % 2]]):
+                out.append((i, what, value, provider))
+    return out
+
+
+_COMBOS = None
+
+
 def generate(rng, cfg):
+    global _COMBOS
+    idx = cfg.get("_index")
+    if idx is not None and idx % 4 == 3:
+        # dictionary run: the hostile-field dictionary is enumerated systematically, one combination per run
+        if _COMBOS is None:
+            _COMBOS = dict_combos()
+        i, what, value, provider = _COMBOS[(idx // 4) % len(_COMBOS)]
+        trace = []
+        if rng.random() < 0.3:
+            trace.append(["env", "tzdb_view", {"view": rng.choice(["default", "package-only", "tzpath-only"])}])
+        if rng.random() < 0.3:
+            trace.append([1, "deliver", {"src": "dict", "doc": DICT_DOC.encode("utf-8").decode("latin-1"), "faults": [],
+                                         "as": "bytes", "multiple": False, "entry": "Calendar"}])
+        trace.append([0, "deliver", {"src": "dict", "doc": DICT_DOC.encode("utf-8").decode("latin-1"),
+                                     "faults": [{"kind": "hostile_field", "i": i, "what": what, "value": value}],
+                                     "as": rng.choice(["bytes", "str"]), "multiple": rng.random() < 0.3,
+                                     "entry": rng.choice(["Calendar", "Calendar", "Component"])}])
+        return {"cfg": {"provider": provider, "dictionary": True}, "trace": trace}
     pool = doc_pool()
     provider = rng.choice(["zoneinfo", "zoneinfo", "pytz"])
     nclients = rng.choice([1, 2, 3, 4])
@@ -475,6 +539,10 @@ def execute(run, res):
                 data = data[:65536]
             if "run" in fired:
                 res.probe("long_run_delivered")
+            if a["src"] == "dict" and fired:
+                res.probe("dictionary_run")
+                f0 = a["faults"][0]
+                res.states.add("cov:dict:%s:%s" % (f0["what"], digest(f0["value"])[:6]))
             if warm:
                 res.probe("delivery_with_warm_cache")
             payload = data
